@@ -2323,3 +2323,205 @@ C15_GET = dict(
     ],
 )
 ALL += [C15_GENERATE, C15_GET]
+# ---- C07: distance_calculation.py, whole functions (vocabulary: Model/Chunks.v, Model/DistMat.v) ----
+# An iterator over the generator lower_triangular_indices(n) is the list of the items it has not produced yet (the
+# translated generator's list at creation).  Trusted: islice's two uses (one library call each), the translator.
+_C07 = dict(file="src/batchie/distance_calculation.py", out="SrcChunks.v", imports="Model.Chunks")
+_PAIRS = "list (Z * Z)"
+C07_CONSUME = dict(
+    _C07, func="consume", name="src_consume", pyparams=["iterator", "n"],
+    params=[("iterator", _PAIRS), ("n", "Z")], returns=_PAIRS, vars={},
+    # collections.deque(islice(it, n), maxlen=0) advances `iterator`; the function returns None: its denotation is the
+    # iterator's state afterwards
+    effects=[("collections.deque(islice(iterator, n), maxlen=0)", "iterator'", "!islice_drop {state} n'")],
+    implicit_return="{iterator}",
+)
+C07_N_LOWER = dict(
+    _C07, func="get_number_of_lower_triangular_indices", name="src_get_number_of_lower_triangular_indices",
+    pyparams=["n"], params=[("n", "Z")], returns="Z", vars={}, zero_division=10,
+)
+C07_CHUNK = dict(
+    _C07, func="get_lower_triangular_indices_chunk", name="src_get_lower_triangular_indices_chunk",
+    pyparams=["n", "chunk_index", "n_chunks"], params=[("n", "Z"), ("chunk_index", "Z"), ("n_chunks", "Z")],
+    returns=_PAIRS, assert_error=9, zero_division=10,
+    vars={"n_indices": "Z", "chunk_size": "Z", "remainder": "Z", "start_index": "Z", "end_index": "Z", "g": _PAIRS},
+    prims=[
+        # the three callees run their translations (above / C07_LOWER_TRI)
+        ("get_number_of_lower_triangular_indices(__n)", "!src_get_number_of_lower_triangular_indices {n}", "Z", {"n": "Z"}),
+        ("lower_triangular_indices(__n)", "!src_lower_triangular_indices {n}", _PAIRS, {"n": "Z"}),
+        ("list(islice(__g, __k))", "!islice_take {g} {k}", _PAIRS, {"g": _PAIRS, "k": "Z"}),
+    ],
+    effects=[("consume(g, __k)", "g'", "!src_consume {state} {k}")],
+)
+ALL += [C07_CONSUME, C07_N_LOWER, C07_CHUNK]
+
+# ChunkedDistanceMatrix: an object is the record `cdm V` of its six attributes (Model/DistMat.v, storage level); V is the
+# type of a stored value (a float), vzero the zero np.zeros(dtype=float) fills with, visz the test `x != 0` negated.
+_CDM = "(cdm V)"
+_VT = [("V", "Type"), ("vzero", "V"), ("visz", "V -> bool")]
+_C07M = dict(
+    file="src/batchie/distance_calculation.py", cls="ChunkedDistanceMatrix", out="SrcDistMat.v",
+    imports="Model.Chunks Model.DistMat Generated.SrcChunks", overload=True, index_error=98,
+    fields={"size": (_CDM, "Z", "c_size {obj}", "set_c_size {obj} {val}"),
+            "chunk_size": (_CDM, "Z", "c_chunk {obj}", "set_c_chunk {obj} {val}"),
+            "current_index": (_CDM, "Z", "c_cur {obj}", "set_c_cur {obj} {val}"),
+            "row_indices": (_CDM, "list Z", "c_rows {obj}", "set_c_rows {obj} {val}"),
+            "col_indices": (_CDM, "list Z", "c_cols {obj}", "set_c_cols {obj} {val}"),
+            "values": (_CDM, "list V", "c_vals {obj}", "set_c_vals {obj} {val}")},
+)
+_ZL1, _VL1 = {"a": "list Z"}, {"a": "list V"}
+_CDM_NUMPY = [
+    ("len(__l)", "Z.of_nat (length {l})", "Z"),
+    ("np.zeros(__n, dtype=int)", "!np_zeros 0 {n}", "list Z", {"n": "Z"}),
+    ("np.zeros(__n, dtype=float)", "!np_zeros vzero {n}", "list V", {"n": "Z"}),
+    ("np.concatenate((__a, __b))", "{a} ++ {b}", "list Z", {"a": "list Z", "b": "list Z"}),
+    ("np.concatenate((__a, __b))", "{a} ++ {b}", "list V", {"a": "list V", "b": "list V"}),
+    ("__a[:__k]", "np_prefix {a} {k}", "list Z", {"a": "list Z", "k": "Z"}),
+    ("__a[:__k]", "np_prefix {a} {k}", "list V", {"a": "list V", "k": "Z"}),
+    ("__a[__i]", "!list_get {a} {i}", "Z", {"a": "list Z", "i": "Z"}),          # a negative index wraps, IndexError = Err 98
+    ("__a[__i]", "!list_get {a} {i}", "V", {"a": "list V", "i": "Z"}),
+    ("__x != 0", "negb ({x} =? 0)", "bool", {"x": "Z"}),
+    ("__x != 0", "negb (visz {x})", "bool", {"x": "V"}),
+    # the callees run their translations
+    ("get_number_of_lower_triangular_indices(__n)", "!src_get_number_of_lower_triangular_indices {n}", "Z", {"n": "Z"}),
+]
+_CHUNK_KW = {"get_lower_triangular_indices_chunk": (
+    "!src_get_lower_triangular_indices_chunk {n} {chunk_index} {n_chunks}", "list (Z * Z)",
+    [("n", "Z", None), ("chunk_index", "Z", None), ("n_chunks", "Z", None)])}
+_RAISES = [("Indices are out of bounds", 1), ("Indices must be lower triangular", 2), ("already been calculated", 12),
+           ("must be of the same size", 3), ("Cannot concat matrices of different sizes", 3), ("Cannot concat empty list", 4),
+           ("The distance matrix is not complete", 5)]
+C07_CDM_INIT = dict(
+    _C07M, func="__init__", name="src_cdm_init", pyparams=["self", "size", "n_chunks", "chunk_index", "chunk_size"],
+    pydefaults=["1", "0", "None"],
+    params=_VT + [("self", _CDM), ("size", "Z"), ("n_chunks", "Z"), ("chunk_index", "Z"), ("chunk_size", "opt Z")],
+    returns=_CDM, vars={}, prims=_CDM_NUMPY, kwcalls=_CHUNK_KW, implicit_return="{self}",
+)
+C07_CDM_EXPAND = dict(
+    _C07M, func="_expand_storage", name="src_cdm_expand_storage", pyparams=["self"],
+    params=_VT + [("self", _CDM)], returns=_CDM, vars={}, prims=_CDM_NUMPY, implicit_return="{self}",
+)
+C07_CDM_ADD = dict(
+    _C07M, func="add_value", name="src_cdm_add_value", pyparams=["self", "i", "j", "value"],
+    params=_VT + [("self", _CDM), ("i", "Z"), ("j", "Z"), ("value", "V")], returns=_CDM, vars={}, prims=_CDM_NUMPY,
+    effects=[("self._expand_storage()", "self'", "!src_cdm_expand_storage V vzero visz {state}")],
+    raises=_RAISES, implicit_return="{self}",
+)
+C07_CDM_IS_COMPLETE = dict(
+    _C07M, func="is_complete", name="src_cdm_is_complete", pyparams=["self"],
+    params=_VT + [("self", _CDM)], returns="bool", vars={}, prims=_CDM_NUMPY,
+)
+C07_CDM_TO_DENSE = dict(
+    _C07M, func="to_dense", name="src_cdm_to_dense", pyparams=["self"],
+    params=_VT + [("self", _CDM)], returns="list list V", vars={"dense": "list list V", "i": "Z"},
+    prims=_CDM_NUMPY + [
+        ("__s.is_complete()", "!src_cdm_is_complete V vzero visz {s}", "bool", {"s": _CDM}),
+        ("np.zeros((__n, __m))", "!np_zeros2 vzero {n} {m}", "list list V", {"n": "Z", "m": "Z"}),
+    ],
+    raises=_RAISES,
+)
+C07_CDM_COMBINE = dict(
+    _C07M, func="combine", name="src_cdm_combine", pyparams=["self", "other"],
+    params=_VT + [("self", _CDM), ("other", _CDM)], returns=_CDM,
+    vars={"composed": _CDM, "i": "Z", "row": "Z", "col": "Z", "value": "V"},
+    prims=_CDM_NUMPY + [
+        # ChunkedDistanceMatrix(size, chunk_size=c): a new object initialised by the translated __init__ with the
+        # signature's defaults n_chunks=1, chunk_index=0 (checked there by pydefaults)
+        ("ChunkedDistanceMatrix(__s, chunk_size=__c)", "!src_cdm_init V vzero visz (cdm_blank V) {s} 1 0 (Some {c})", _CDM,
+         {"s": "Z", "c": "Z"}),
+        ("(__a, __b) not in zip(__r, __c)", "negb (pair_in_zip {a} {b} {r} {c})", "bool",
+         {"a": "Z", "b": "Z", "r": "list Z", "c": "list Z"}),
+    ],
+    # a[:k] = v on an attribute array (one numpy slice store each)
+    assign_effects=[("composed.row_indices[:__k] = __v", "composed'", "!cdm_store_rows {state} {k} {v}"),
+                    ("composed.col_indices[:__k] = __v", "composed'", "!cdm_store_cols {state} {k} {v}"),
+                    ("composed.values[:__k] = __v", "composed'", "!cdm_store_vals {state} {k} {v}")],
+    effects=[("composed.add_value(__i, __j, __v)", "composed'", "!src_cdm_add_value V vzero visz {state} {i} {j} {v}")],
+    raises=_RAISES,
+)
+C07_CDM_CONCAT = dict(
+    _C07M, func="concat", name="src_cdm_concat", pyparams=["cls", "matrices"], unused_params=["cls"],
+    params=_VT + [("matrices", "list " + _CDM)], returns=_CDM, vars={"accumulator": _CDM, "matrix": _CDM},
+    prims=[("len(__l)", "Z.of_nat (length {l})", "Z"),
+           ("__l[1:]", "tl {l}", "list " + _CDM, {"l": "list " + _CDM}),
+           ("__l[__i]", "!list_get {l} {i}", _CDM, {"l": "list " + _CDM, "i": "Z"}),
+           ("__a.combine(__b)", "!src_cdm_combine V vzero visz {a} {b}", _CDM, {"a": _CDM, "b": _CDM})],
+    raises=_RAISES,
+)
+ALL += [C07_CDM_INIT, C07_CDM_EXPAND, C07_CDM_ADD, C07_CDM_IS_COMPLETE, C07_CDM_TO_DENSE, C07_CDM_COMBINE, C07_CDM_CONCAT]
+
+# calculate_pairwise_distance_matrix_on_predictions: the holder, the samples' prediction method and the metric are ARBITRARY
+# functions (get_theta : Z -> Th, predict : Th -> Pr, dist : Pr -> Pr -> V); n = thetas.n_thetas.
+C07_CALC = dict(
+    {k: v for k, v in _C07M.items() if k != "cls"},
+    func="calculate_pairwise_distance_matrix_on_predictions", name="src_calculate_pairwise",
+    pyparams=["thetas", "distance_metric", "data", "chunk_index", "n_chunks", "progress"], pydefaults=["False"],
+    params=_VT + [("Th", "Type"), ("Pr", "Type"), ("n", "Z"), ("get_theta", "Z -> Th"), ("predict", "Th -> Pr"),
+                  ("dist", "Pr -> Pr -> V"), ("chunk_index", "Z"), ("n_chunks", "Z")],
+    returns=_CDM,
+    vars={"indices": _PAIRS, "result": _CDM, "i": "Z", "j": "Z", "sample_i": "Th", "i_pred": "Pr", "sample_j": "Th",
+          "j_pred": "Pr", "value": "V"},
+    prims=[
+        ("thetas.n_thetas", "n", "Z"),
+        ("tqdm.tqdm(__l) if progress else __l", "{l}", _PAIRS, {"l": _PAIRS}),      # tqdm iterates the list it wraps
+        ("thetas.get_theta(__i)", "get_theta {i}", "Th", {"i": "Z"}),
+        ("__s.predict_viability(data)", "predict {s}", "Pr", {"s": "Th"}),
+        ("distance_metric.distance(__a, __b)", "dist {a} {b}", "V", {"a": "Pr", "b": "Pr"}),
+    ],
+    kwcalls=dict(_CHUNK_KW, ChunkedDistanceMatrix=(
+        # a new object initialised by the translated __init__; its defaults are checked there by pydefaults
+        "!src_cdm_init V vzero visz (cdm_blank V) {size} {n_chunks} {chunk_index} {chunk_size}", _CDM,
+        [("size", "Z", None), ("n_chunks", "Z", "1"), ("chunk_index", "Z", "0"), ("chunk_size", "opt Z", "None")])),
+    effects=[("result.add_value(__i, __j, __v)", "result'", "!src_cdm_add_value V vzero visz {state} {i} {j} {v}")],
+    ignore=["logger.info(__a)"],
+)
+ALL += [C07_CALC]
+
+# MSEDistance.distance over exact rationals (Model/Mse.v): expit is the oracle, numpy's elementwise operators and mean
+# are primitives (one call each); np.mean of an empty array (NaN) is Err 6 as in the model.
+_QV = "list Qcanon.Qc"
+C07_MSE = dict(
+    file="src/batchie/distance/mse.py", cls="MSEDistance", func="distance", out="SrcMse.v", imports="Lib.Num Model.Mse",
+    name="src_mse_distance", pyparams=["self", "a", "b"],
+    params=[("orc", "oracle"), ("sigmoid", "bool"), ("a", _QV), ("b", _QV)], returns="Qcanon.Qc", vars={"a": _QV, "b": _QV},
+    prims=[
+        ("self.sigmoid", "sigmoid", "bool"),
+        ("expit(__x)", "map (orc ORC_EXPIT) {x}", _QV, {"x": _QV}),          # scipy.special.expit, elementwise
+        ("np.mean(__x)", "!np_mean {x}", "Qcanon.Qc", {"x": _QV}),
+        ("__x ** 2", "map qsq {x}", _QV, {"x": _QV}),
+        ("__x - __y", "!vec_sub {x} {y}", _QV, {"x": _QV, "y": _QV}),
+    ],
+)
+ALL += [C07_MSE]
+
+# ChunkedDistanceMatrix.save / load: the HDF5 file is the record `h5cdm V` of its four datasets (Model/DistMat.v); the h5py
+# calls are primitives (one call each): create_dataset stores an array under a name, f[name][:] / f[name][0] read it.
+_H5C = "(h5cdm V)"
+C07_CDM_SAVE = dict(
+    _C07M, func="save", name="src_cdm_save", pyparams=["self", "filename"],
+    params=_VT + [("self", _CDM)], returns=_H5C, vars={"f": _H5C},      # returns what has been written to `filename`
+    contexts=[("h5py.File(filename, 'w')", "h5cdm_new V", _H5C)],
+    prims=_CDM_NUMPY + [("np.array([__x])", "[{x}]", "list Z", {"x": "Z"})],
+    effects=[("f.create_dataset('row_indices', data=__d, compression='gzip')", "f'", "set_f_rows {state} {d}"),
+             ("f.create_dataset('col_indices', data=__d, compression='gzip')", "f'", "set_f_cols {state} {d}"),
+             ("f.create_dataset('values', data=__d, compression='gzip')", "f'", "set_f_vals {state} {d}"),
+             ("f.create_dataset('size', data=__d, compression='gzip')", "f'", "set_f_size {state} {d}")],
+    implicit_return="{f}",
+)
+C07_CDM_LOAD = dict(
+    _C07M, func="load", name="src_cdm_load", pyparams=["cls", "filename"],
+    params=_VT + [("h5", _H5C)], returns=_CDM,                          # h5 = what the file at `filename` holds
+    vars={"f": _H5C, "row_indices": "list Z", "col_indices": "list Z", "values": "list V", "size": "Z", "instance": _CDM},
+    contexts=[("h5py.File(filename, 'r')", "h5", _H5C)],
+    prims=[("__f['row_indices'][:]", "!h5_dataset (f_rows {f})", "list Z", {"f": _H5C}),
+           ("__f['col_indices'][:]", "!h5_dataset (f_cols {f})", "list Z", {"f": _H5C}),
+           ("__f['values'][:]", "!h5_dataset (f_vals {f})", "list V", {"f": _H5C}),
+           ("__f['size'][0]", "!h5_first (f_size {f})", "Z", {"f": _H5C}),
+           # cls(size, chunk_size=c): a new object initialised by the translated __init__ (defaults n_chunks=1, chunk_index=0)
+           ("cls(__s, chunk_size=__c)", "!src_cdm_init V vzero visz (cdm_blank V) {s} 1 0 (Some {c})", _CDM, {"s": "Z", "c": "Z"}),
+           ] + _CDM_NUMPY,
+    assign_effects=[("instance.row_indices[:__k] = __v", "instance'", "!cdm_store_rows {state} {k} {v}"),
+                    ("instance.col_indices[:__k] = __v", "instance'", "!cdm_store_cols {state} {k} {v}"),
+                    ("instance.values[:__k] = __v", "instance'", "!cdm_store_vals {state} {k} {v}")],
+)
+ALL += [C07_CDM_SAVE, C07_CDM_LOAD]
